@@ -798,7 +798,10 @@ Inductive op :=
 | OReplaceJob (sp : spec)                            (* the job is deleted and re-created under the same name; its old pods are still around *)
 | OJobDeleting                                       (* the job gets a deletion timestamp *)
 | OStaleJob                                          (* an older version of the job is delivered after a newer one *)
-| OFire.                                             (* the oldest pending delayed-action timer expires *)
+| OFire                                              (* the oldest pending delayed-action timer expires *)
+| OResyncPod (t : positive) (i : Z) (race : bool).   (* the resync worker's syncTask for a pod queued after a failed delete;
+                                                        race: the pod goes away and its delete event is handled between
+                                                        the worker's GET and its cache.UpdatePod *)
 
 Definition step (w : world) (o : op) : world * bool * bool :=
   match o with
@@ -833,6 +836,17 @@ Definition step (w : world) (o : op) : world * bool * bool :=
                (mkCtl (c_job (v_ctl w)) true true (c_vdel (v_ctl w)) (c_queue (v_ctl w)) (c_delay (v_ctl w)) (c_rq (v_ctl w))), false, false)
   | OStaleJob => (w, false, false)   (* cache.Update refuses an older resourceVersion *)
   | OFire => fire w
+  | OResyncPod t i race =>
+      (* job_controller_resync.go syncTask: GET the pod; NotFound => cache.DeletePod; else cache.UpdatePod with the
+         fetched object, which REFUSES a pod the job's cache does not hold ("can not find pod") *)
+      match find_pod t i (w_pods w) with
+      | None => (mkWorld (w_spec w) (v_spec w) (w_st w) (v_st w) (w_pods w) (remove_pod t i (v_pods w)) (w_pg w) (v_pg w) (v_ctl w), false, false)
+      | Some p =>
+          if race then (mkWorld (w_spec w) (v_spec w) (w_st w) (v_st w) (remove_pod t i (w_pods w)) (remove_pod t i (v_pods w))
+                                (w_pg w) (v_pg w) (v_ctl w), false, false)
+          else (mkWorld (w_spec w) (v_spec w) (w_st w) (v_st w) (w_pods w) (update_pod t i (fun _ => p) (v_pods w))
+                        (w_pg w) (v_pg w) (v_ctl w), false, false)
+      end
   end.
 
 Definition run (w : world) (ops : list op) : world := fold_left (fun w o => fst (fst (step w o))) ops w.
